@@ -355,7 +355,7 @@ func c08EdDSA(t *rapid.T, ev *evProp) {
 	}
 	// adversarial triple
 	L := ordEd25519
-	mut := rapid.SampledFrom([]string{"msg", "sigbitflip", "sigbitflip", "pubbitflip", "s+L", "s+kL", "R+torsion", "A+torsion", "smallorderA", "smallorderR", "mixedkey-smallorderR", "mixedkey-smallorderR", "noncanonicalR", "noncanonicalA", "otherkey", "zero-s"}).Draw(t, "mut")
+	mut := rapid.SampledFrom([]string{"msg", "sigbitflip", "sigbitflip", "pubbitflip", "s+L", "s+kL", "R+torsion", "A+torsion", "smallorderA", "smallorderR", "mixedkey-smallorderR", "mixedkey-smallorderR", "mixedR-signed", "mixedR-signed", "mixedkey-signed", "noncanonicalR", "noncanonicalA", "otherkey", "zero-s"}).Draw(t, "mut")
 	mpub, mmsg, msig := append([]byte(nil), pub...), msg, append([]byte(nil), sig...)
 	mustReject := true
 	c := modelEd25519
@@ -435,6 +435,31 @@ func c08EdDSA(t *rapid.T, ev *evProp) {
 			mustReject = false // (2^-64) fall back to the honest triple
 			mpub, mmsg, msig = append([]byte(nil), pub...), msg, append([]byte(nil), sig...)
 		}
+	case "mixedR-signed", "mixedkey-signed":
+		// A signer who KNOWS the secret scalar a signs around a point of mixed order: the commitment
+		// R = r*B + T (mixedR-signed), or the key A' = a*B + T (mixedkey-signed), with S = r + h*a for the
+		// h of the resulting transcript.  Everything is canonical and nothing has small order; the
+		// cofactorless equation S*B = R + h*A fails by T (resp. h*T) while the cofactored one,
+		// 8*S*B = 8*R + 8*h*A, holds.  crypto/ed25519 verifies the cofactorless equation, so it decides.
+		a := genScalar(t, groupByName("ed25519"), "ms.a")
+		if a.V.Sign() == 0 {
+			a.V = big.NewInt(1)
+		}
+		r := genScalar(t, groupByName("ed25519"), "ms.r")
+		T := torsion("ms.T")
+		ap, rp := c.Mul(a.V, c.Base()), c.Mul(r.V, c.Base())
+		if mut == "mixedR-signed" {
+			rp = c.Add(rp, T)
+		} else {
+			ap = c.Add(ap, T)
+		}
+		mpub = c.Encode(ap, 32)
+		renc := c.Encode(rp, 32)
+		hh := sha512.Sum512(append(append(append([]byte(nil), renc...), mpub...), msg...))
+		h := new(big.Int).Mod(bytesToBig(hh[:], true), L)
+		copy(msig, renc)
+		copy(msig[32:], bigToBytes(new(big.Int).Mod(new(big.Int).Add(r.V, new(big.Int).Mul(h, a.V)), L), 32, true))
+		mustReject = false // decided by the implication kyber => crypto/ed25519 (h*T may vanish)
 	case "noncanonicalR":
 		copy(msig, mustHex(rapid.SampledFrom(edSmallOrderY[5:]).Draw(t, "nc")))
 		if rapid.Bool().Draw(t, "sgn") {
